@@ -5,7 +5,9 @@ script: port-mods, link-down marks, a fragment-handling mode, then 1..3 deliveri
 action list, either by OFPT_PACKET_OUT, or by installing a flow and injecting the frame on a port, or
 with an empty table (table miss).  Between deliveries further port-mods, link changes and "the next
 transmit fails once" (a DpPacketOut listener of the harness raising) may occur; every delivery is judged
-against the port state of its own moment, and the delivery in which a transmit failed is not judged.  All OpenFlow messages are encoded here with `struct` from
+against the port state of its own moment, and the delivery in which a transmit failed is not judged.
+A "buffer_out" step is a packet-out that names a buffer announced by an earlier, judged packet-in (output to
+CONTROLLER or a table miss): its list must be applied to the frame exactly as that packet-in showed it.  All OpenFlow messages are encoded here with `struct` from
 openflow.h 1.0 and replies are decoded the same way; POX's own codec is only on the receiving side.
 
 Oracle: pvf.ref.of10_actions.apply() on the raw bytes (independent of pox.lib.packet), compared with
@@ -38,7 +40,7 @@ RULE = ("a case is a script of port-mods, link-down marks and 1..3 deliveries (p
         "down, NO_FWD, NO_FLOOD under FLOOD), or (d) arrives on a port that is receive-disabled for it or is dropped at a down ingress port, or (e) misses the "
         "table on a NO_PACKET_IN port, or (f) emits after a field-modify action that is not applicable to the frame (nw/tp rewrite on "
         "ARP, on a 0x9100/0x88a8 frame that only resembles tagged IPv4, tp rewrite on ICMP ...), or (g) has a transmit failure fire in a "
-        "delivery that is followed by a judged one; distinct by SHA-1 of the canonical JSON of the case")
+        "delivery that is followed by a judged one, or (h) releases a buffer by packet-out; distinct by SHA-1 of the canonical JSON of the case")
 ASSUMPTIONS = [
   "frames carry valid checksums and consistent lengths and no link-layer trailer (the generator builds them with ref/frames.py; the validator re-checks every input frame)",
   "output to the ingress port's own number is dropped; OFPP_IN_PORT is needed to send back (OpenFlow 1.0.0 section 3.3)",
@@ -55,6 +57,8 @@ ASSUMPTIONS = [
   "ports are not added or deleted (OpenFlow 1.0 has no message for it)",
   "a transmit that fails (the harness's DpPacketOut listener raising once) may abort the delivery it happens in - that delivery and the counters it moved are not judged - "
   "but must leave the switch behaving, for every later delivery, as one that never had the failure",
+  "a buffer id announced by a packet-in names the frame that packet-in showed (its data is a prefix of it, total_len its length), whatever the rest of the action list did afterwards; "
+  "a packet-out releasing it carries the in_port the packet-in reported; only buffers of judged deliveries are released",
   "'other' frames are 802.3/LLC, SNAP, well-formed LLDP and EAPOL-Start/Logoff, RARP, and EtherTypes / IP protocols the packet library does not dissect; "
   "IPv6, IGMP, GRE, MPLS and malformed payloads of dissected protocols are left to C14/C15",
 ]
@@ -63,7 +67,9 @@ EXHAUSTIVE_SCOPE = {
            "x {flow, packet-out} delivery x {ordinary, STP-destination} frame with the fixed list [set_dl_src, output:2, set_vlan_vid, FLOOD, set_nw_tos, IN_PORT, ALL, CONTROLLER]; plus the 64 ingress configs x 2 frames for a table miss; "
            "and each of the 10 field-modify actions alone before an output x 13 frames it must leave alone or that only resemble tagged IPv4 (EtherTypes 0x9100/0x88a8/0x9200/0x9300/0x8101/0x0801 before a tag-like word + IPv4/TCP, ARP, ICMP, later fragment, LLC) x {flow, packet-out} x 2 output tails; "
            "and 8 first deliveries x 44 changes in between (each of the 6 config bits set / cleared by port-mod on port 1, 2 or 3, link down / up on each, one failing transmit, nothing) x 8 second deliveries "
-           "(flow FLOOD / ALL / FLOOD of an STP frame / [set_dl_dst, 2, IN_PORT, CONTROLLER], packet-out FLOOD / ALL / TABLE, table miss)",
+           "(flow FLOOD / ALL / FLOOD of an STP frame / [set_dl_dst, 2, IN_PORT, CONTROLLER], packet-out FLOOD / ALL / TABLE, table miss); "
+           "and 18 TCP option layouts (every option kind as the last option ending exactly at the data offset, NOP and EOL padding variants) x payload {none, even, odd} x {untagged, tagged} x {no rewrite, set_nw_src/dst/tos, set_tp_src/dst} x {flow, packet-out}; "
+           "and [CONTROLLER, one of the 10 field-modify actions, output:2] on 4 frames x {flow, packet-out} x max_len {0, 0xffff} followed by a packet-out releasing the announced buffer with 3 lists, plus table-miss buffers",
   "thorough": "as quick, additionally with a tagged TCP frame and the list [strip_vlan, ALL, set_tp_dst, output:2, set_nw_dst, FLOOD, enqueue:2, CONTROLLER]",
 }
 
